@@ -36,7 +36,7 @@ pub fn obj(props: Vec<(&str, Runtype, bool)>, index: Option<(Runtype, Runtype, b
 }
 
 pub fn leaves() -> Vec<Runtype> {
-    vec![Runtype::null(), Runtype::boolean(), lit_b(true), Runtype::number(), lit_n(1), Runtype::string(), lit_s("a")]
+    vec![Runtype::null(), Runtype::boolean(), lit_b(true), Runtype::number(), lit_n(1), Runtype::string(), lit_s("a"), obj(vec![], None), Runtype::tuple(vec![], None)]
 }
 
 /// every type of exactly `size` nodes over the alphabet (memoised by the caller)
